@@ -752,7 +752,9 @@ func ruleR07p(c *Ctx) {
 								if i < len(s.Rhs) {
 									ast.Inspect(s.Rhs[i], func(z ast.Node) bool {
 										if s2, ok := z.(*ast.SelectorExpr); ok && s2.Sel.Name == se.Sel.Name {
-											selfRef = true
+											if rid, ok := ast.Unparen(s2.X).(*ast.Ident); ok && info.Uses[rid] == recv {
+												selfRef = true
+											}
 										}
 										return true
 									})
@@ -1211,6 +1213,32 @@ func ruleR20i(c *Ctx) {
 				"the scalar goes through text ("+why+") on its way to the Soy value: a float32 written with its shortest decimal and read back is not the number the Go value holds, so the converted value differs from the same number converted from a float64")
 			return true
 		})
+	}
+	// arms reached through a kind table
+	tbl := converterTableArms(c)
+	var tks []string
+	for k := range tbl {
+		if scalarKinds[k] {
+			tks = append(tks, k)
+		}
+	}
+	sort.Strings(tks)
+	for _, k := range tks {
+		n++
+		why := ""
+		var at token.Pos = tbl[k].Pos()
+		for _, nd := range c.nodeWithHelpers("data", tbl[k], 2) {
+			ast.Inspect(nd, func(y ast.Node) bool {
+				if call, ok := y.(*ast.CallExpr); ok && why == "" {
+					if cal := calleeFunc(call, info); cal != nil && cal.Pkg() != nil && (cal.Pkg().Path() == "strconv" || cal.Pkg().Path() == "fmt") {
+						why, at = cal.Pkg().Name()+"."+cal.Name(), call.Pos()
+					}
+				}
+				return true
+			})
+		}
+		c.check(why == "", "R20i", "data.NewWith arm "+k+" converts-directly", at, "the value reflect hands over is converted with a Go conversion",
+			"the scalar goes through text ("+why+") on its way to the Soy value")
 	}
 	c.floor("R20i", "scalar arms of the converter", 4, n)
 }
